@@ -26,8 +26,10 @@
    SETACTIVE, DELETESCRIPT: up to five commands in one call; abstractly RenameAbs.rename_abs, whose safety is C14).
    C15_session_refines_spec: every session on which the specification is defined, of any length, returns exactly
    the specified values and leaves the server with the specified data and both buffers empty, for any fuel above
-   the size of the store plus the length of the session.  GETSCRIPT of a missing script and LOGOUT / CAPABILITY
-   are covered by the correspondence check only. *)
+   the size of the store plus the length of the session.  GETSCRIPT of a script that does not exist (NO
+   NONEXISTENT, the call returns None and mirrors the code) and LOGOUT are part of the specification
+   (C15_getscript_missing, C15_logout); CAPABILITY and the connection phase are covered by the correspondence
+   check (and C16 / C10) only. *)
 From Coq Require Import String.
 From Coq Require Import List NArith Bool Arith.
 From SV Require Import Bytes Base64 Client Transport Server Session WriterFacts StatusFacts DecodeFacts DataFacts SessionFacts SessionData.
@@ -208,6 +210,64 @@ Theorem C15_getscript :
     s3 = snd (render_answer (AnsScript content) (booked (bs "GETSCRIPT") [PStr name] s)).
 Proof. exact SessionData.getscript_against_server. Qed.
 Print Assumptions C15_getscript.
+
+(* GETSCRIPT of a script that does not exist: None, errcode NONEXISTENT, the server's data untouched *)
+Theorem C15_getscript_missing :
+  forall (f : nat) (name : bytes) (st : cstate) (w : sworld sstate) (k : kont),
+  c_auth st = true ->
+  s_stream sstate w = [] ->
+  live (s_peer sstate w) ->
+  fault_now (s_peer sstate w) = FNone ->
+  assoc_get name (s_store (s_peer sstate w)) = None ->
+  let s := s_peer sstate w in
+  exists (c : N) (s3 : sstate),
+    runS (getscript (S f) name st k) w =
+    runS
+      (k (set_err (bs "NONEXISTENT") (if ((c / 2) mod 4 =? 0)%N then [] else bs "refused") st)
+         VNone)
+      {|
+        s_peer := s3;
+        s_stream := [];
+        s_n := S (s_n sstate w);
+        s_conn := s_conn sstate w;
+        Transport.s_tls := Transport.s_tls sstate w;
+        s_log :=
+          WSend (s_conn sstate w) (Transport.s_tls sstate w)
+            (command_bytes (bs "GETSCRIPT") [AStr name]) :: s_log sstate w
+      |} /\
+    live s3 /\
+    s_faults s3 = s_faults s /\
+    s_count s3 = S (s_count s) /\
+    s_store s3 = s_store s /\ s_active s3 = s_active s /\ s_cfg s3 = s_cfg s.
+Proof. exact SessionData.getscript_missing_k_gen. Qed.
+Print Assumptions C15_getscript_missing.
+
+(* LOGOUT: answered OK, the call returns None *)
+Theorem C15_logout :
+  forall (f : nat) (st : cstate) (w : sworld sstate) (k : kont),
+  s_stream sstate w = [] ->
+  live (s_peer sstate w) ->
+  fault_now (s_peer sstate w) = FNone ->
+  let s := s_peer sstate w in
+  exists s3 : sstate,
+    runS (logout (S f) st k) w =
+    runS (k st VNone)
+      {|
+        s_peer := s3;
+        s_stream := [];
+        s_n := S (s_n sstate w);
+        s_conn := s_conn sstate w;
+        Transport.s_tls := Transport.s_tls sstate w;
+        s_log :=
+          WSend (s_conn sstate w) (Transport.s_tls sstate w) (command_bytes (bs "LOGOUT") [])
+          :: s_log sstate w
+      |} /\
+    live s3 /\
+    s_faults s3 = s_faults s /\
+    s_count s3 = S (s_count s) /\
+    s_store s3 = s_store s /\ s_active s3 = s_active s /\ s_cfg s3 = s_cfg s.
+Proof. exact SessionData.logout_k_gen. Qed.
+Print Assumptions C15_logout.
 
 (* sessions of all eight operations, any length, any encoding choices *)
 Theorem C15_session_with_data :
